@@ -17,7 +17,39 @@ pub fn run(ctx: &mut Ctx) {
     spec.metadata = scen::cli_safe_metadata(&spec.metadata);
     let max_len = if big { 3 << 20 } else { 48 * 1024 };
     let max_len = if spec.comp.expensive() { max_len.min(spec.cfg.expected_avg().saturating_mul(16).max(64)) } else { max_len };
-    let (sspec, data) = gen::gen_source(&spec.cfg, max_len);
+    let (mut sspec, mut data) = gen::gen_source(&spec.cfg, max_len);
+    // one run in 25: a chunk of several hundred KiB up to a few MiB is still open when the input
+    // ends (rolling hash, large average, cheap compression, 0.3-3 MiB of input). That is where
+    // "how much the chunker looked at per call" and "how the bytes were delivered" could leak into
+    // the chunk list: whole-file reads against 64 KiB pipe reads against the library's slices.
+    if !big && gen::chance(1, 25) {
+        let (cfg, comp, len) = gen::t(|t| {
+            let bits = 17 + t.draw(5);
+            let avg = 1usize << (bits + 1);
+            let window = *t.pick(&[16usize, 32, 48, 64, 20]);
+            let min = *t.pick(&[0usize, 1, 4096, 65536, 300_000]).min(&avg);
+            let max = avg.max(*t.pick(&[1usize << 20, 2 << 20, 4 << 20, 16 << 20, (1 << 20) + 1]));
+            let algo = if t.chance(1, 2) { gen::Algo::RollSum } else { gen::Algo::BuzHash };
+            let comp = *t.pick(&[gen::Comp::None, gen::Comp::None, gen::Comp::Zstd(1), gen::Comp::Brotli(1)]);
+            (gen::Cfg { algo, window, min, max, bits, avg }, comp, 300_000 + t.draw(2_700_000) as usize)
+        });
+        spec.cfg = cfg;
+        spec.comp = comp;
+        sspec = gen::gen_source_spec(len);
+        data = gen::expand(&sspec);
+        // half of them: a low-entropy stretch and then a little ordinary data, as at the end of
+        // a disk image
+        if gen::chance(1, 2) {
+            let tail = gen::draw(64 * 1024) as usize;
+            let fill = gen::t(|t| *t.pick(&[0u8, 0, 0xff, 0x20]));
+            let start = gen::draw((data.len() / 4) as u32 + 1) as usize;
+            let end = data.len().saturating_sub(tail).max(start);
+            data[start..end].iter_mut().for_each(|b| *b = fill);
+            sspec.kind = "long-run-then-tail";
+        }
+        gen::cap_chunks(&spec.cfg, &mut sspec, &mut data);
+        simkit::count("probe:long-open-chunk-at-end-of-input");
+    }
     let source = Arc::new(data);
     let k_cli = 2 + gen::draw(3);
     let k_lib = 2 + gen::draw(2);
